@@ -48,4 +48,9 @@ Emit == PrintT(ToJson([doc |-> doc, res |-> Res]))
 
 ThGroup == HsThGroup(doc)
 ThBoundary == HsThBoundary(doc)
+
+\* T-StateDefs: the library's definition TEXTS of the state pseudo-classes (StateDefsGen, from the tree under test), parsed and compiled by the
+\* specification's front end and evaluated by the matcher of Ir.tla, designate exactly what HtmlState.tla says
+ST == INSTANCE IrState
+ThStateDefs == ST!StateDefsHold(doc, [nsmap |-> <<>>, scope |-> RootOf(doc)])
 =============================================================================
